@@ -59,7 +59,7 @@ def generated_items(seed, tier, bias, scale=1.0):
     if bias in ("own", "wf"):
         # constant folding that discards operands (C11/C12 quantifier)
         for it in gen.fold_programs(random.Random(seed), 12):
-            if it["name"].startswith(("dead;", "cond;", "fold;", "foldc;")):
+            if it["name"].startswith(("dead;", "cond;", "fold;", "foldc;", "fold2;", "foldu;", "foldu2;")):
                 items.append(dict(name="fold:" + it["name"], text=it["text"]))
     if bias == "own":
         # expression statements without effect (listed finding valueless_expression_statement) and compound shifts with converted operands
